@@ -151,7 +151,7 @@ def ldst_word(rng, thumb):
     return hi << 16 | lo
 
 
-def _one_shot_case(rng, word, thumb, mode, te, regs, mpu, sct_extra=None):
+def _one_shot_case(rng, word, thumb, mode, te, regs, mpu, sct_extra=None, arch=7):
     """program = [word, b .] with vectors/handlers; DATA is a recording RAM"""
     rets = {k: (P.RETURNS_THUMB if te else P.RETURNS_ARM)[k][0] for k in ('irq', 'fiq', 'svc', 'und')}
     rets['dabt'] = 'subs8'
@@ -161,7 +161,7 @@ def _one_shot_case(rng, word, thumb, mode, te, regs, mpu, sct_extra=None):
     devices = G.std_devices(rec_data=True, high=False)
     G.set_data(devices[0], 0, low)
     G.set_data(devices[1], 0, code)
-    cfg = {'arch_version': 7, 'have_security_ext': False, 'have_virt_ext': False, 'have_lpae': False, 'memory_system_architecture': 'PMSA', 'number_of_mpu_regions': 12}
+    cfg = {'arch_version': arch, 'have_security_ext': False, 'have_virt_ext': False, 'have_lpae': False, 'memory_system_architecture': 'PMSA', 'number_of_mpu_regions': 12}
     ee = int(rng.random() < 0.3)
     st = P.main_state(rng, cfg, mode, thumb, te, dict(G.mpu_sys(mpu)), e=int(rng.random() < 0.25), ee=ee)
     st['sys']['sctlr'] = G.sctlr_value(m=1, a=0, u=1, te=te, v=0, br=0, ee=ee, **(sct_extra or {}))
@@ -216,6 +216,7 @@ def gen_deny(rng):
     deny_kind = rng.choice(kinds)
     shape = rng.choice(['32B', '256B-sub', '2KB'])
     pc_load = rng.random() < 0.3
+    arch = rng.choice([6, 7, 7])
     srs = mode == 'svc' and rng.random() < 0.25
     for _ in range(60):
         w = ldst_word(rng, thumb)
@@ -239,7 +240,7 @@ def gen_deny(rng):
         regs = [rng.choice([D + 8 * rng.randrange(-8, 8), D + 4 * rng.randrange(-16, 16), rng.randrange(0, 40), 4 * rng.randrange(0, 16)]) for _ in range(15)]
         regs[13] = D + 8 * rng.randrange(-4, 8)
         mpu = base_mpu(rng, deny_kind, shape)
-        core, meta = _one_shot_case(rng, w if not thumb or w > 0xFFFF else w, thumb, mode, te, regs, mpu)
+        core, meta = _one_shot_case(rng, w if not thumb or w > 0xFFFF else w, thumb, mode, te, regs, mpu, arch=arch)
         if srs:
             for bank in ('usr', 'svc', 'irq', 'fiq', 'und'):
                 core['regs']['R']['SP' + bank] = D + 8 * rng.randrange(-4, 8)
@@ -590,7 +591,7 @@ def gen_align(rng):
     regs[13] = D + mis if rn == 13 else D
     mpu = [(0, 0, 0)] * 12
     mpu[0] = (1 | 31 << 1, 0, 3 << 8)
-    core, meta = _one_shot_case(rng, word, thumb, mode, te, regs, mpu, {})
+    core, meta = _one_shot_case(rng, word, thumb, mode, te, regs, mpu, {}, arch=rng.choice([6, 7]))   # ARMv6 with U=1: unaligned MemA accesses fault like on ARMv7
     core['regs']['sys']['sctlr'] = G.sctlr_value(m=rng.getrandbits(1), a=a_bit, u=1, te=te, v=0, br=1, ee=(core['regs']['sys']['sctlr'] >> 25) & 1)
     return {'scenario': 'align', 'cores': [core], 'meta': meta, 'word': word, 'kind': kind, 'first': first, 'size': size, 'rn': rn, 'wb': wb, 'write': kind in ('str', 'strh', 'strd', 'stm', 'push'),
             'events': [], 'max_ticks': 200}
